@@ -179,6 +179,10 @@ func c14Canon(before, after *c14Node) {
 			}
 		}
 	}
+	if before != nil && before.kind == "C" && strings.EqualFold(before.name, "random") && after.kind == "L" && after.name == "number" {
+		after.name = "randnum" // the number a random() call became (a NumberLit in the Go AST)
+		return
+	}
 	if before != nil && before.kind == "C" && strings.EqualFold(before.name, "randomblob") && after.kind == "L" && after.name == "blob" {
 		after.name, after.val = "randblob", strconv.Itoa(len(after.val)/2)
 		return
@@ -303,7 +307,7 @@ func c14OnlyAllowed(b, a *c14Node, underOrd bool) string {
 			if underOrd {
 				return "call inside ORDER BY replaced: " + b.name
 			}
-			if nm == "random" && a.name == "number" {
+			if nm == "random" && a.name == "randnum" {
 				return ""
 			}
 			if nm == "randomblob" && a.name == "randblob" && b.nargs == 1 && c14IntLiteral(b.kids[0]) {
